@@ -376,6 +376,138 @@ func c10CutRetry(store bool) vs.Verdict {
 	return f.verdict(obs)
 }
 
+// c10NotifyWhileDown: request A's exchange is cut while its handler is still running; the handler
+// then sends a notification (with its request's context) and returns.  With an event store the
+// request's stream lives on: both messages belong to it - they are what a resume of that stream
+// replays, in order - and the standalone stream carries nothing of request A.  Without a store the
+// notification may travel on the standalone stream (there is no other way left), the response on none.
+func c10NotifyWhileDown(store bool) vs.Verdict {
+	f := &e1Fail{prefix: "c10 notify-while-down"}
+	ctx := context.Background()
+	ctl := vs.NewController()
+	gateA := ctl.Gate("A")
+	vs.Quiet(true)
+	s := NewServer(&Implementation{Name: "srv", Version: "1"}, &ServerOptions{Logger: quietLogger})
+	AddTool(s, &Tool{Name: "echo"}, func(ctx context.Context, r *CallToolRequest, in c10Args) (*CallToolResult, any, error) {
+		r.Session.NotifyProgress(ctx, &ProgressNotificationParams{ProgressToken: "t", Progress: 1, Message: "A-first"})
+		gateA.Wait()
+		r.Session.NotifyProgress(context.WithoutCancel(ctx), &ProgressNotificationParams{ProgressToken: "t", Progress: 2, Message: "A-second"})
+		return &CallToolResult{Content: []Content{&TextContent{Text: "A"}}}, nil, nil
+	})
+	hopts := &StreamableHTTPOptions{Logger: quietLogger}
+	if store {
+		hopts.EventStore = NewMemoryEventStore(nil)
+	}
+	h := NewStreamableHTTPHandler(func(*http.Request) *Server { return s }, hopts)
+	do := func(rctx context.Context, method, sid, body, lastEventID string, w *httptest.ResponseRecorder) {
+		r := httptest.NewRequest(method, "http://example.test/mcp", strings.NewReader(body)).WithContext(rctx)
+		r.Header.Set("Content-Type", "application/json")
+		r.Header.Set("Accept", "application/json, text/event-stream")
+		if sid != "" {
+			r.Header.Set("Mcp-Session-Id", sid)
+		}
+		if lastEventID != "" {
+			r.Header.Set("Last-Event-ID", lastEventID)
+		}
+		r.Header.Set("Mcp-Protocol-Version", "2025-06-18")
+		h.ServeHTTP(w, r)
+	}
+	w0 := httptest.NewRecorder()
+	do(ctx, "POST", "", `{"jsonrpc":"2.0","id":"i","method":"initialize","params":{"protocolVersion":"2025-06-18","capabilities":{},"clientInfo":{"name":"c","version":"1"}}}`, "", w0)
+	sid := w0.Header().Get("Mcp-Session-Id")
+	do(ctx, "POST", sid, `{"jsonrpc":"2.0","method":"notifications/initialized","params":{}}`, "", httptest.NewRecorder())
+	gctx, gcancel := context.WithCancel(ctx)
+	standalone := httptest.NewRecorder()
+	gdone := make(chan struct{})
+	vs.Go(func() {
+		do(gctx, "GET", sid, "", "", standalone)
+		close(gdone)
+	})
+	actx, cut := context.WithCancel(ctx)
+	recA := httptest.NewRecorder()
+	adone := make(chan struct{})
+	vs.Go(func() {
+		do(actx, "POST", sid, `{"jsonrpc":"2.0","id":1,"method":"tools/call","params":{"name":"echo","arguments":{"tag":"A"},"_meta":{"progressToken":"t"}}}`, "", recA)
+		close(adone)
+	})
+	vs.WaitIdle() // A's handler has sent its first notification and is parked
+	vs.Quiet(false)
+	cut()
+	<-adone
+	// A's handler goes on whenever nothing else can run (the controller opens its gate when idle)
+	vs.WaitIdle()
+	ctl.Stop()
+	vs.WaitIdle()
+	lastID := ""
+	for _, evt := range hxParseSSE(recA.Body.Bytes()) {
+		if evt.ID != "" {
+			lastID = evt.ID
+		}
+	}
+	var original []string
+	if msgs, err := c10Messages(recA); err != nil {
+		f.failf("garbage-on-exchange", "exchange of A: %v", err)
+	} else {
+		for _, m := range msgs {
+			kind, tag := c10TagOf(m)
+			original = append(original, kind+":"+tag)
+		}
+	}
+	var resumed []string
+	if store && lastID != "" {
+		rec := httptest.NewRecorder()
+		rctx, rcancel := context.WithCancel(ctx)
+		rdone := make(chan struct{})
+		vs.Go(func() {
+			do(rctx, "GET", sid, "", lastID, rec)
+			close(rdone)
+		})
+		vs.WaitIdle()
+		rcancel()
+		<-rdone
+		msgs, err := c10Messages(rec)
+		if err != nil {
+			f.failf("garbage-on-exchange", "resumed stream: %v", err)
+		}
+		for _, m := range msgs {
+			kind, tag := c10TagOf(m)
+			resumed = append(resumed, kind+":"+tag)
+		}
+	}
+	vs.Quiet(true)
+	gcancel()
+	<-gdone
+	for ss := range s.Sessions() {
+		ss.Close()
+	}
+	vs.WaitIdle()
+	vs.Quiet(false)
+	var onStandalone []string
+	msgs, err := c10Messages(standalone)
+	if err != nil {
+		f.failf("garbage-on-exchange", "standalone stream: %v", err)
+	}
+	for _, m := range msgs {
+		kind, tag := c10TagOf(m)
+		onStandalone = append(onStandalone, kind+":"+tag)
+	}
+	if store {
+		if len(onStandalone) > 0 {
+			f.failf("request-message-on-standalone-stream", "request A's exchange was cut and its stream is stored for resumption; its handler's later messages belong to that stream, but the standalone stream carried %v (the resumed stream: %v)", onStandalone, resumed)
+		}
+		if all := strings.Join(append(append([]string{}, original...), resumed...), ","); lastID != "" && all != "notification:A-first,notification:A-second,response:A" {
+			f.failf("resumed-stream-incomplete", "request A's exchange carried %v before it was cut; resuming its stream after event %q gave %v: together not the handler's two notifications and its response, each once and in order", original, lastID, resumed)
+		}
+	} else {
+		for _, m := range onStandalone {
+			if strings.HasPrefix(m, "response") {
+				f.failf("response-on-standalone-stream", "the standalone stream carried %v", onStandalone)
+			}
+		}
+	}
+	return f.verdict(fmt.Sprintf("original=%v standalone=%v resumed=%v", original, onStandalone, resumed))
+}
+
 // c10ServerRequests: server-to-client requests issued while handling a request.  Two concurrent
 // tools/call POSTs on one session; each handler asks the client to sample (sampling/createMessage,
 // tagged through the system prompt) and returns the client's reply.  The server's request must
@@ -708,6 +840,8 @@ func TestVerifC10(t *testing.T) {
 		vs.E1(t, "stateful-sse+store/handler-closes-stream-vs-resume", env.Pick(2, 3), vs.Options{}, func() vs.Verdict { return c08RaceAs("c10 close-vs-resume", "2025-06-18", true) }),
 		vs.E1(t, "stateful-sse/cut-then-retry-same-id", env.Pick(2, 3), vs.Options{}, func() vs.Verdict { return c10CutRetry(false) }),
 		vs.E1(t, "stateful-sse+store/cut-then-retry-same-id", env.Pick(2, 3), vs.Options{}, func() vs.Verdict { return c10CutRetry(true) }),
+		vs.E1(t, "stateful-sse/notification-while-exchange-is-down", b, vs.Options{}, func() vs.Verdict { return c10NotifyWhileDown(false) }),
+		vs.E1(t, "stateful-sse+store/notification-while-exchange-is-down", b, vs.Options{}, func() vs.Verdict { return c10NotifyWhileDown(true) }),
 	}
 	if !env.Quick() {
 		scs = append(scs, mk("stateless-json", c10Opts{stateless: true, jsonResp: true}, b), mk("stateful-sse+store", c10Opts{store: true}, b))
